@@ -24,9 +24,10 @@ type (
 
 	sseConnection struct {
 		ctx             context.Context
-		mu              sync.Mutex
+		mu              sync.Mutex // serialises every write to the response, and guards done
 		f               http.Flusher
 		keepAliveTicker *time.Ticker
+		done            bool // the stream has been completed: nothing may be written after it
 	}
 )
 
@@ -111,7 +112,9 @@ func (t SSE) Do(w http.ResponseWriter, r *http.Request, exec graphql.GraphExecut
 
 	if opErr != nil {
 		resp := exec.DispatchError(ctx, opErr)
+		c.mu.Lock()
 		writeJsonWithSSE(w, resp)
+		c.mu.Unlock()
 	} else {
 		responses, ctx := exec.DispatchOperation(ctx, rc)
 		for {
@@ -119,14 +122,19 @@ func (t SSE) Do(w http.ResponseWriter, r *http.Request, exec graphql.GraphExecut
 			if response == nil {
 				break
 			}
+			c.mu.Lock()
 			writeJsonWithSSE(w, response)
-			c.flush()
+			c.f.Flush()
+			c.mu.Unlock()
 
 			c.resetTicker(t.KeepAlivePingInterval)
 		}
 	}
 
+	c.mu.Lock()
+	c.done = true
 	fmt.Fprint(w, "event: complete\n\n")
+	c.mu.Unlock()
 }
 
 func (c *sseConnection) resetTicker(interval time.Duration) {
@@ -144,8 +152,15 @@ func (c *sseConnection) keepAlive(w io.Writer) {
 			c.keepAliveTicker.Stop()
 			return
 		case <-c.keepAliveTicker.C:
+			c.mu.Lock()
+			if c.done {
+				c.mu.Unlock()
+				c.keepAliveTicker.Stop()
+				return
+			}
 			fmt.Fprintf(w, ": ping\n\n")
-			c.flush()
+			c.f.Flush()
+			c.mu.Unlock()
 		}
 	}
 }
